@@ -102,12 +102,12 @@ Qed.
 Lemma vp_packed_varint sk : sk_wt sk = 0 ->
   forall g bs acc, (length bs < length g)%nat ->
   if vr_varints g bs then exists vs, msg_dec_packed g sk bs acc = DOk vs
-  else exists e, msg_dec_packed g sk bs acc = DErr e.
+  else msg_dec_packed g sk bs acc = DErr DParse.
 Proof.
   intros Hwt. induction g as [|x g IH]; intros bs acc Hl; [cbn in Hl; lia|].
   cbn [vr_varints msg_dec_packed]. destruct bs as [|b t]; [eauto|].
   rewrite Hwt. rewrite parse_val_eq. cbv iota.
-  destruct (dec_varint (b :: t)) as [[v r]|e] eqn:E; [|eauto].
+  destruct (dec_varint (b :: t)) as [[v r]|e] eqn:E; [|reflexivity].
   pose proof (vp_dec_varint_len _ _ _ E) as Hr.
   assert (Hs : exists s, sk_dec sk (WVarint v) = Some s).
   { apply (vp_sk_dec_some sk 0%nat 1 (b :: t) (WVarint v) r). rewrite Hwt, parse_val_eq. cbv iota. rewrite E. reflexivity. }
@@ -119,7 +119,7 @@ Lemma vp_packed_fixed sk k : (k = 4 \/ k = 8)%nat ->
      match take k bs with Some (b, r) => Ok ((if Nat.eqb k 4 then WFixed32 b else WFixed64 b), r) | None => Err Truncated end) ->
   forall n g bs acc, (length bs <= n)%nat -> (length bs < length g)%nat ->
   if N.of_nat (length bs) mod N.of_nat k =? 0 then exists vs, msg_dec_packed g sk bs acc = DOk vs
-  else exists e, msg_dec_packed g sk bs acc = DErr e.
+  else msg_dec_packed g sk bs acc = DErr DParse.
 Proof.
   intros Hk Hpv. induction n as [|n IH]; intros g bs acc Hn Hl.
   - destruct bs; [|cbn in Hn; lia]. destruct g; [cbn in Hl; lia|]. cbn. destruct Hk; subst; cbn; eauto.
@@ -138,14 +138,14 @@ Proof.
       * apply IH; cbn [length] in Hl; lia.
       * rewrite Hlen. destruct Hk; subst k; lia.
     + apply take_none in Et.
-      replace (N.of_nat (length bs) mod N.of_nat k =? 0) with false; [eauto|].
+      replace (N.of_nat (length bs) mod N.of_nat k =? 0) with false; [reflexivity|].
       assert (0 < length bs)%nat by (rewrite Ebs; cbn; lia).
       symmetry. apply N.eqb_neq. destruct Hk; subst k; lia.
 Qed.
 
 Lemma vp_packed sk payload : msg_packable sk = true ->
   if vr_packed_ok sk payload then exists vs, msg_dec_packed (x00 :: payload) sk payload [] = DOk vs
-  else exists e, msg_dec_packed (x00 :: payload) sk payload [] = DErr e.
+  else msg_dec_packed (x00 :: payload) sk payload [] = DErr DParse.
 Proof.
   intros Hp. unfold vr_packed_ok.
   destruct sk; cbn [sk_wt]; cbv iota; try (cbn in Hp; discriminate);
@@ -441,7 +441,7 @@ Section StepAgree.
           -- rewrite ?Eb. pose proof (vp_packed sk payload Hp) as Hpk.
              destruct (vr_packed_ok sk payload); cbn [vp_agree].
              ++ destruct Hpk as (vs & ->). split; [lia|]. eexists. split; reflexivity.
-             ++ destruct Hpk as (e & ->). eauto.
+             ++ rewrite Hpk. eauto.
           -- unfold msg_unknown. rewrite vp_parse_val_len2, ?Eb. cbn [vp_agree]. split; [lia|]. eexists. split; reflexivity.
       + cbn [vp_agree]. intros _. destruct (2 =? sk_wt sk).
         * rewrite vp_parse_val_len2, ?Eb. eauto.
@@ -610,3 +610,83 @@ Section LoopAgree.
       + cbn [vp_agree]. rewrite vp_dm_none by exact Hmd. eauto.
   Qed.
 End LoopAgree.
+
+(* ---------- the statements used by Props/C06.v ---------- *)
+(* well-formed for the schema, within the recursion limit, valid UTF-8 where enforced: what the
+   validator accepts without the FWB4 quirk *)
+Definition vp_wellformed (S : schema) (limit tid : nat) (bs : list byte) : bool :=
+  match vm_validate S limit tid bs with
+  | (3, _, false) => true
+  | _ => false
+  end.
+
+Lemma vp_validate_cases (P : Prop) S (H : P -> vp_fl1_free S) limit tid bs :
+  match vr_msg S limit tid 0 (x00 :: bs) bs with
+  | VFuel => False
+  | VBad => P -> exists e, msg_decode false S limit tid bs = DErr e
+  | VOk i q r => if q then msg_decode false S limit tid bs = DErr DDepth
+                 else exists v, msg_decode false S limit tid bs = DOk v
+  end.
+Proof.
+  pose proof (vp_msg_agree P S H limit tid 0 (x00 :: bs) bs (msg_macc_of msg_empty) ltac:(cbn [length]; lia)) as A.
+  unfold vp_agree in A. unfold msg_decode, msg_decode_into.
+  destruct (vr_msg S limit tid 0 (x00 :: bs) bs) as [i q r| |].
+  - destruct A as [_ A]. destruct q.
+    + rewrite A. reflexivity.
+    + destruct A as ([m r2] & -> & _). eexists. reflexivity.
+  - intros HP. destruct (A HP) as (e & ->). eauto.
+  - exact A.
+Qed.
+
+Theorem vp_validate_total S limit tid bs : fst (fst (vm_validate S limit tid bs)) <> 0.
+Proof.
+  pose proof (vp_validate_cases False S (fun f => match f with end) limit tid bs) as H.
+  unfold vm_validate. destruct (vr_msg S limit tid 0 (x00 :: bs) bs); cbn [fst]; [discriminate|discriminate|contradiction].
+Qed.
+
+Theorem vp_valid_sound S limit tid bs i :
+  vm_validate S limit tid bs = (3, i, false) -> exists v, msg_decode false S limit tid bs = DOk v.
+Proof.
+  pose proof (vp_validate_cases False S (fun f => match f with end) limit tid bs) as H.
+  unfold vm_validate. destruct (vr_msg S limit tid 0 (x00 :: bs) bs) as [i0 q r| |]; try discriminate.
+  intros E. inversion E; subst. exact H.
+Qed.
+
+Theorem vp_valid_quirk S limit tid bs i :
+  vm_validate S limit tid bs = (3, i, true) -> msg_decode false S limit tid bs = DErr DDepth.
+Proof.
+  pose proof (vp_validate_cases False S (fun f => match f with end) limit tid bs) as H.
+  unfold vm_validate. destruct (vr_msg S limit tid 0 (x00 :: bs) bs) as [i0 q r| |]; try discriminate.
+  intros E. inversion E; subst. exact H.
+Qed.
+
+Theorem vp_invalid_sound S limit tid bs :
+  vp_fl1_free S -> fst (fst (vm_validate S limit tid bs)) = 2 ->
+  exists e, msg_decode false S limit tid bs = DErr e.
+Proof.
+  intros Hfl. pose proof (vp_validate_cases True S (fun _ => Hfl) limit tid bs) as H.
+  unfold vm_validate. destruct (vr_msg S limit tid 0 (x00 :: bs) bs) as [i0 q r| |]; cbn [fst]; try discriminate.
+  intros _. apply H. exact I.
+Qed.
+
+Theorem vp_fails_iff S limit tid bs :
+  vp_fl1_free S ->
+  ((exists e, msg_decode false S limit tid bs = DErr e) <-> vp_wellformed S limit tid bs = false).
+Proof.
+  intros Hfl. pose proof (vp_validate_cases True S (fun _ => Hfl) limit tid bs) as H.
+  unfold vp_wellformed, vm_validate.
+  destruct (vr_msg S limit tid 0 (x00 :: bs) bs) as [i0 q r| |].
+  - destruct q.
+    + split; [reflexivity|]. intros _. rewrite H. eauto.
+    + destruct H as (v & ->). split; [intros (e & E); discriminate|discriminate].
+  - split; [reflexivity|]. intros _. apply H. exact I.
+  - contradiction.
+Qed.
+
+(* decidable version of the FL1-freeness hypothesis *)
+Definition vp_fl1_freeb (S : schema) : bool := forallb (fun md => forallb (fun fd => negb (vp_fl1_bad fd)) md) S.
+Lemma vp_fl1_freeb_spec S : vp_fl1_freeb S = true -> vp_fl1_free S.
+Proof.
+  unfold vp_fl1_freeb. intros H md Hmd fd Hfd. rewrite forallb_forall in H. specialize (H md Hmd).
+  rewrite forallb_forall in H. specialize (H fd Hfd). destruct (vp_fl1_bad fd); [discriminate|reflexivity].
+Qed.
